@@ -8,9 +8,10 @@
 (*   A  kanata started from file 0 of `files`; reload requests are real.   *)
 (*   B  the same configuration with every reload-request action replaced  *)
 (*      by an action without effect: "no reload has been requested".       *)
-(*   C  a freshly started instance of the content A loaded, started at the *)
-(*      first idle point after the reload (no physical key held and the    *)
-(*      processing loop would block), fed from then on.                    *)
+(*   C  a freshly started instance of the content A loaded, created when A  *)
+(*      reloads and fed with the same inputs from then on; compared from   *)
+(*      the first idle point after the reload on (no physical key held and *)
+(*      the processing loop would block).                                  *)
 (* The lanes are produced by the real code (harness `reload`, trace check) *)
 (* or by the detailed model (spec/Reload.tla, model check); the monitor is *)
 (* the same.                                                               *)
@@ -42,6 +43,8 @@
 (*                                                                         *)
 (* params = [files  : <<kind..>>  initial content kind of every file,       *)
 (*           valid  : <<kind..>>  kinds that parse,                         *)
+(*           mayfail: <<kind..>>  valid kinds whose reload needs a step that *)
+(*                    may fail after parsing (all or nothing accepted),      *)
 (*           first  : [kind |-> name of its first deflayer],                *)
 (*           req    : <<[c |-> code, k |-> "lrld"|"next"|"prev"|"num", n |-> Nat]..>>  request keys (every layer), *)
 (*           idxsem : "inuse" (statement: a failed request leaves no trace)   *)
@@ -83,7 +86,10 @@ FinalInUse(m) == SetFold(m.pend, {m.base}, m.base, NFiles(m))
 TargetsReq(m) == { FoldSel(SubSeq(m.pend, 1, j), m.cbase, NFiles(m)) : j \in 1..Len(m.pend) }
 FinalReq(m) == FoldSel(m.pend, m.cbase, NFiles(m))
 Targets(m) == IF m.p.idxsem = "requested" THEN TargetsReq(m) ELSE TargetsInUse(m)
-ValidNow(m) == {i \in 0..(NFiles(m) - 1) : IsValid(m, m.files[i + 1])}
+\* contents whose application must succeed: they parse and no later step of the reload can fail (`mayfail`: kinds that
+\* parse but need an external step - xset - that may fail; then all or nothing is accepted, a half-applied reload is not)
+MustApply(m, k) == IsValid(m, k) /\ ~InSeq(m.p.mayfail, k)
+ValidNow(m) == {i \in 0..(NFiles(m) - 1) : MustApply(m, m.files[i + 1])}
 
 ReqOf(m, c) == LET I == {i \in DOMAIN m.p.req : m.p.req[i].c = c} IN
                IF I = {} THEN <<>> ELSE <<m.p.req[CHOOSE i \in I : TRUE]>>
@@ -109,7 +115,7 @@ MonIn(m, r) ==
                             !.okall = IF m1.pend = <<>> THEN ValidNow(m1) ELSE @]
   IN [m2 EXCEPT !.down = DownAfter(a.out, @), !.since = 0, !.quiet = 0]
 
-MonW(m, r) == [m EXCEPT !.files[r.i + 1] = r.k, !.okall = IF IsValid(m, r.k) THEN @ ELSE @ \ {r.i}]
+MonW(m, r) == [m EXCEPT !.files[r.i + 1] = r.k, !.okall = IF MustApply(m, r.k) THEN @ ELSE @ \ {r.i}]
 
 IdxStr(i) == ToString(i)
 ReloadMsgs(msgs) == SelectSeq(msgs, LAMBDA x : x[1] = "reload")
@@ -125,7 +131,8 @@ ReloadChecks(m, a, down1, since1) ==
       byLayer == {t \in All : IsValid(m, m.files[t + 1]) /\ m.p.first[m.files[t + 1]] = a.layer}
       cand == IF byMsg # {} THEN byMsg
               ELSE IF byLayer \cap T # {} THEN byLayer \cap T ELSE byLayer \cap Tc
-      t == IF cand = {} THEN 0 - 1 ELSE CHOOSE x \in cand : TRUE
+      \* several files with the same first layer and no notification: the index kanata holds names the file
+      t == IF cand = {} THEN 0 - 1 ELSE IF a.idx \in cand THEN a.idx ELSE CHOOSE x \in cand : TRUE
       k == IF t < 0 THEN "?" ELSE m.files[t + 1]
       n == Len(a.msgs)
       m1 == IF ~(down1 = {} \/ since1 >= m.p.sec)
